@@ -13,7 +13,8 @@ import teneva
 LEVEL = "exploration"
 RULE = ("Hypothesis draws TT specs of all value families (incl. rank_deficient, zero, cores scaled by 2^[-30,30]) and rank profiles "
         "(incl. over_ranked); for every tensor EVERY pivot k = 0..d-1 x both stabilisation settings, and every legal step i x both "
-        "in-place settings of the single-step variants, are enumerated (counted as inner evaluations), plus illegal pivots. Oracle: dense "
+        "in-place settings of the single-step variants, are enumerated (counted as inner evaluations), plus illegal pivots; the pivot / core number is passed as a Python int or as a NumPy "
+        "integer scalar / 0-d integer array (int64, int32, uint8, intp), which the unmodified routines accept. Oracle: dense "
         "preservation, Gram defects of the unfoldings, norm concentration in the pivot core, rank caps, aliasing contract. "
         "Non-trivial = a rank actually changed, or some rank >= 2 with an interior pivot; distinct by SHA-1 of the case (+ pivot).")
 TOLERANCES = ("||dense(Z)*2^p - dense(Y)||_F <= 64(d+sum r+max n) eps prod_k||G_k||_F (normwise QR backward error); Gram defect <= 64 eps r n; "
@@ -42,7 +43,8 @@ def unchanged(ctx, Y, snap, what):
 def cases(draw, tier):
     kw = dict(d_max=6, size_max=4096, r_max=6) if tier == "quick" else dict(d_max=8, size_max=2 ** 15, r_max=8)
     spec = draw(gen.tt_specs(**kw))
-    case = {"Y": spec}
+    # how the caller spells the pivot / core number: a Python int or what NumPy code produces (np.arange, argmax, rng.integers)
+    case = {"Y": spec, "kspell": draw(st.sampled_from(["int", "int", "int64", "int32", "uint8", "intp", "arr0"]))}
     if draw(st.integers(0, 2)) == 0:
         # extreme scales: core k is multiplied by 2**shift[k]; single cores stay representable, products do not
         lim = 400 if tier == "quick" else 480
@@ -60,6 +62,9 @@ def cases(draw, tier):
                     "free": [draw(st.sampled_from([-1, 1])) for _ in range(d)]}[pat]
             case["shift"] = [m_ * s_ for m_, s_ in zip(mag, sign)]
     return case
+
+
+SPELL = {"int": int, "int64": np.int64, "int32": np.int32, "uint8": np.uint8, "intp": np.intp, "arr0": lambda k: np.array(k)}
 
 
 def check_orth(ctx, Y, F, Z, p, k, stab, tF, nrmY):
@@ -104,7 +109,8 @@ def prop_orth(case, ctx):
     F = dense(Y)
     nrmY = fro(F)
     tF = tolF(Y)
-    ctx.label(*gen.spec_labels(spec))
+    ctx.label(*gen.spec_labels(spec), "pivot_as:" + case.get("kspell", "int"))
+    sp = SPELL[case.get("kspell", "int")]
     if case.get("shift") and spec["fam"] != "scaled":
         # the input is Y with core k multiplied by 2**shift[k] (far outside the double range as a whole); the stabilised
         # result (Z, p) is compared with the base tensor after removing the exact factor 2**sum(shift)
@@ -113,7 +119,7 @@ def prop_orth(case, ctx):
         Ys = [np.ldexp(G, e_) for G, e_ in zip(Y, sh)]
         snap_s = snapshot(Ys)
         for k in range(d):
-            res = ctx.lib(teneva.orthogonalize, Ys, k, True)
+            res = ctx.lib(teneva.orthogonalize, Ys, sp(k), True)
             ctx.check(isinstance(res, tuple) and len(res) == 2, "orthogonalize(use_stab=True) must return (Z, p)")
             Z, p = res
             unchanged(ctx, Ys, snap_s, "orthogonalize")
@@ -127,7 +133,7 @@ def prop_orth(case, ctx):
             ctx.inner(1, nontrivial_key=f"x{k}")
             if case.get("plain_too"):
                 # the whole tensor is still representable: the plain variant must work as well (2**-sum(shift) removes the scale)
-                Zp = ctx.lib(teneva.orthogonalize, Ys, k, False)
+                Zp = ctx.lib(teneva.orthogonalize, Ys, sp(k), False)
                 why = oracle.wellformed(Zp, oracle.shape_of(Y))
                 ctx.check(why is None, f"orthogonalize (one extremely scaled core): result not well-formed / finite: {why}", k=k, shift=sh)
                 check_orth(ctx, Y, F, Zp, -sum(sh), k, False, tF, nrmY)
@@ -138,7 +144,7 @@ def prop_orth(case, ctx):
     changed_any = False
     for k in range(d):
         for stab in (False, True):
-            res = ctx.lib(teneva.orthogonalize, Y, k, stab)
+            res = ctx.lib(teneva.orthogonalize, Y, sp(k), stab)
             if stab:
                 ctx.check(isinstance(res, tuple) and len(res) == 2, "orthogonalize(use_stab=True) must return (Z, p)")
                 Z, p = res
@@ -155,6 +161,8 @@ def prop_orth(case, ctx):
     for bad in (-1, d, d + 3):
         ctx.raises(ValueError, teneva.orthogonalize, Y, bad)
         ctx.raises(ValueError, teneva.orthogonalize, Y, bad, True)
+        if case.get("kspell", "int") not in ("int", "uint8") or bad >= 0:
+            ctx.raises(ValueError, teneva.orthogonalize, Y, sp(bad))
     unchanged(ctx, Y, snap, "orthogonalize(invalid pivot)")
     if changed_any:
         ctx.label("rank_changed")
@@ -168,7 +176,8 @@ def prop_step(case, ctx):
     n = oracle.shape_of(Y0)
     F = dense(Y0)
     tF = tolF(Y0)
-    ctx.label(*gen.spec_labels(spec))
+    ctx.label(*gen.spec_labels(spec), "core_number_as:" + case.get("kspell", "int"))
+    sp = SPELL[case.get("kspell", "int")]
     for left in (True, False):
         fn = teneva.orthogonalize_left if left else teneva.orthogonalize_right
         legal = range(0, d - 1) if left else range(1, d)
@@ -177,7 +186,7 @@ def prop_step(case, ctx):
                 Y = [G.copy() for G in Y0]
                 snap = snapshot(Y)
                 old = list(Y)
-                Z = ctx.lib(fn, Y, i, inplace) if inplace else ctx.lib(fn, Y, i)
+                Z = ctx.lib(fn, Y, sp(i), inplace) if inplace else ctx.lib(fn, Y, sp(i))
                 a, b = (i, i + 1) if left else (i - 1, i)
                 if inplace:
                     ctx.check(Z is Y, f"{fn.__name__}(inplace=True) did not return its argument")
